@@ -369,6 +369,29 @@ theorem flow_of_check {w : Wiring} {objs : List AObj} (hc : check w objs = true)
   rw [hval r hd]
   exact interp_paramOr_dflt cfg r
 
+/-- with certificates, a listed class property of any reachable object returns the expected class -/
+theorem props_of_check {w : Wiring} {objs : List AObj} (hc : check w objs = true) (hp : propsOk w objs = true)
+    (cfg : Cfg) (chain : List Site) (o : Obj) (c : CName) (p : Ident) (r : Role)
+    (hin : ∀ x ∈ chain, x ∈ w.sites) (hr : reach w cfg chain = some o)
+    (hm : (c, p, r) ∈ propRoles) (hcd : o.cd = c) :
+    propValue w o p = some (expected cfg r) := by
+  obtain ⟨ao, hao, rfl⟩ := reach_covered hc cfg chain o hin hr
+  unfold propsOk at hp
+  simp only [Bool.and_eq_true] at hp
+  have h1 := List.all_eq_true.mp (List.all_eq_true.mp hp.2 ao hao) (c, p, r) hm
+  have hcd' : ao.cd = c := hcd
+  simp only [hcd', if_true] at h1
+  unfold propValue
+  have e : (interpObj cfg ao).cd = c := hcd
+  rw [e]
+  cases hw : w.classDef c with
+  | none => simp [hw] at h1
+  | some cd =>
+    simp only [hw, beq_iff_eq] at h1
+    show evalCls cd (interpObj cfg ao) (.prop p) = some (expected cfg r)
+    rw [evalCls_interp cfg cd ao (check_self hc ao hao), h1]
+    exact interp_paramOr_dflt cfg r
+
 /-! ## Looking sites up by id -/
 
 theorem site_some {w : Wiring} {id : String} {s : Site} (h : w.site id = some s) : s ∈ w.sites ∧ s.id = id := by
